@@ -5,6 +5,7 @@ from .. import gen_cells
 from ..judge import convert_deck, crash_violation, region_agreement, summarise
 
 ID = 'C01'
+UPSTREAM_DECKS = True
 LEVEL = 'exploration'
 RULE = ('universe-free decks of 3-12 surfaces and 3-13 cells per family '
         '(pure intersections; unions with the largest pure intersection '
